@@ -487,20 +487,31 @@ def _layout_subtrees(
                     params.min_subtree_spacing,
                 )
 
+                # The trunk is centered on the gap between the two subtrees. If
+                # it is wider than what a narrow (e.g. empty) subtree leaves
+                # free on its side, make room for the part that sticks out, so
+                # that the trunk stays inside the box of its own subtree
+                subtrees_width = (
+                    left_info["size"].w + subtree_spacing + right_info["size"].w
+                )
+                trunk_start = left_info["size"].w + (subtree_spacing - trunk_width) / 2
+                before = max(0, -trunk_start)
+                after = max(0, trunk_start + trunk_width - subtrees_width)
+
                 state["size"] = Size(
-                    left_info["size"].w + subtree_spacing + right_info["size"].w,
+                    before + subtrees_width + after,
                     subtree_span,
                 )
                 state["left_pos"] = Position(
-                    0,
+                    before,
                     subtree_span - left_info["size"].h,
                 )
                 state["right_pos"] = Position(
-                    left_info["size"].w + subtree_spacing,
+                    before + left_info["size"].w + subtree_spacing,
                     subtree_span - right_info["size"].h,
                 )
                 trunk_pos = Position(
-                    left_info["size"].w + (subtree_spacing - trunk_width) / 2,
+                    before + trunk_start,
                     0,
                 )
             else:
@@ -511,21 +522,30 @@ def _layout_subtrees(
                     params.min_subtree_spacing,
                 )
 
+                subtrees_height = (
+                    left_info["size"].h + subtree_spacing + right_info["size"].h
+                )
+                trunk_start = (
+                    left_info["size"].h + (subtree_spacing - trunk_height) / 2
+                )
+                before = max(0, -trunk_start)
+                after = max(0, trunk_start + trunk_height - subtrees_height)
+
                 state["size"] = Size(
                     subtree_span,
-                    left_info["size"].h + subtree_spacing + right_info["size"].h,
+                    before + subtrees_height + after,
                 )
                 state["left_pos"] = Position(
                     subtree_span - left_info["size"].w,
-                    0,
+                    before,
                 )
                 state["right_pos"] = Position(
                     subtree_span - right_info["size"].w,
-                    left_info["size"].h + subtree_spacing,
+                    before + left_info["size"].h + subtree_spacing,
                 )
                 trunk_pos = Position(
                     0,
-                    left_info["size"].h + (subtree_spacing - trunk_height) / 2,
+                    before + trunk_start,
                 )
 
             state["trunk"] = Rect.make_from(trunk_pos, trunk_size)
